@@ -3,12 +3,12 @@ CONSTANTS
   InsSeq <- Ins2
   Flushers = {"f"}
   Closer = "c"
-  Tables = {"t1", "t2"}
+  Tables = {"t1"}
   LocSeq <- Loc2
   FreeLocs = FALSE
   BatchSizes = {1, 2, 3}
   PerIns = 2
-  PerFl = 1
+  PerFl = 2
   LockScope = "code"
 VIEW View
 INVARIANTS TypeOK OnlyRacesHurt NeverTwice LocInternOK TxnOwner EmitCase
